@@ -7,43 +7,59 @@ from functools import lru_cache
 from . import bbk, nat, reg
 
 
-@lru_cache(maxsize=None)
-def by_key() -> dict:
-    """(country_code, bank_code) -> entries in registry order (empty key parts skipped)."""
+def index_by_key(banks) -> dict:
+    """(country_code, bank_code) -> entries in list order (entries with an empty key part skipped)."""
     out: dict = {}
-    for e in reg.bank_list():
+    for e in banks:
         cc, bc = e.get("country_code"), e.get("bank_code")
         if cc and bc:
             out.setdefault((cc, bc), []).append(e)
     return out
 
 
-@lru_cache(maxsize=None)
-def by_bic() -> dict:
+def index_by_bic(banks) -> dict:
     out: dict = {}
-    for e in reg.bank_list():
+    for e in banks:
         if e.get("bic"):
             out.setdefault(e["bic"], []).append(e)
     return out
 
 
-@lru_cache(maxsize=None)
-def by_country() -> dict:
+def index_by_country(banks) -> dict:
     out: dict = {}
-    for e in reg.bank_list():
+    for e in banks:
         if e.get("country_code"):
             out.setdefault(e["country_code"], []).append(e)
     return out
 
 
-def candidates(country: str, bank_code: str):
-    """Non-empty BICs of the key, primary entries first, registry order otherwise; None = unlisted."""
-    es = by_key().get((country, bank_code))
+@lru_cache(maxsize=None)
+def by_key() -> dict:
+    return index_by_key(reg.bank_list())
+
+
+@lru_cache(maxsize=None)
+def by_bic() -> dict:
+    return index_by_bic(reg.bank_list())
+
+
+@lru_cache(maxsize=None)
+def by_country() -> dict:
+    return index_by_country(reg.bank_list())
+
+
+def candidates_in(index: dict, country: str, bank_code: str):
+    es = index.get((country, bank_code))
     if es is None:
         return None
     prim = [e["bic"] for e in es if e.get("primary") and e["bic"]]
     rest = [e["bic"] for e in es if not e.get("primary") and e["bic"]]
     return prim + rest
+
+
+def candidates(country: str, bank_code: str):
+    """Non-empty BICs of the key, primary entries first, registry order otherwise; None = unlisted."""
+    return candidates_in(by_key(), country, bank_code)
 
 
 def selection_ok(cands: list[str], chosen: str) -> bool:
